@@ -402,7 +402,7 @@ Example C18_ex_history :
   fields sample_state <> fields gstate0 /\
   run restore sample_state = Some gstate0.
 Proof.
-  exact (conj sample_history_ok (conj (proj1 (Nat.leb_le 8 _) eq_refl)
+  exact (conj sample_history_ok (conj sample_history_long
         (conj sample_history_result (conj sample_state_differs sample_restore)))).
 Qed.
 Print Assumptions C18_ex_history.
